@@ -152,16 +152,23 @@ Definition cleanup (c : cfg) (s : pst) (cancel : option nat) : pst * list event 
     (upd_queue s2 [], [InboxStop] ++ t1 ++ [RegRemove; EvStopped] ++ t2 ++ fin, Normal)
   end.
 
-(* the drain loop of a graceful pill: invokeMsg each, counting in nproc *)
-Fixpoint drain (c : cfg) (s : pst) (l : list env) (nproc : nat) : pst * list event * outcome * nat :=
+(* the drain loop of a graceful pill: every message is counted in nproc; a
+   pill is passed over (and remembered in [skipped]), anything else goes
+   through invokeMsg *)
+Fixpoint drain (c : cfg) (s : pst) (l : list env) (nproc : nat) (skipped : list env)
+  : pst * list event * outcome * nat * list env :=
   match l with
-  | [] => (s, [], Normal, nproc)
+  | [] => (s, [], Normal, nproc, skipped)
   | e :: l' =>
     let nproc := S nproc in
-    let '(s1, t1, o1) := invoke_msg c s e in
-    match o1 with
-    | Normal => let '(s2, t2, o2, np) := drain c s1 l' nproc in (s2, t1 ++ t2, o2, np)
-    | _ => (s1, t1, o1, nproc)
+    match emsg e with
+    | Pill _ _ => drain c s l' nproc (skipped ++ [e])
+    | User _ =>
+      let '(s1, t1, o1) := invoke_msg c s e in
+      match o1 with
+      | Normal => let '(s2, t2, o2, np, sk) := drain c s1 l' nproc skipped in (s2, t1 ++ t2, o2, np, sk)
+      | _ => (s1, t1, o1, nproc, skipped)
+      end
     end
   end.
 
@@ -172,30 +179,31 @@ Definition discard_rest (graceful : bool) (l : list env) : list event :=
                      | Pill _ _ => discard e
                      | _ => if graceful then [] else discard e end) l.
 
-(* result of the body of Invoke: state, trace, outcome, nproc, draining pill *)
+(* result of the body of Invoke: state, trace, outcome, nproc, and — when a
+   drain crashed — the draining pill followed by the pills it had passed over *)
 Fixpoint invoke_loop (c : cfg) (s : pst) (l : list env) (nproc : nat)
-  : pst * list event * outcome * nat * option env :=
+  : pst * list event * outcome * nat * list env :=
   match l with
-  | [] => (s, [], Normal, nproc, None)
+  | [] => (s, [], Normal, nproc, [])
   | e :: l' =>
     let nproc := S nproc in
     match emsg e with
     | Pill g k =>
-      let '(s1, t1, o1, np) := if g then drain c s l' nproc else (s, [], Normal, nproc) in
+      let '(s1, t1, o1, np, sk) := if g then drain c s l' nproc [] else (s, [], Normal, nproc, []) in
       match o1 with
       | Normal =>
         let '(s2, t2, o2) := cleanup c s1 (Some k) in
         match o2 with
-        | Normal => (s2, t1 ++ t2 ++ discard_rest g l', Normal, np, None)
-        | _ => (s2, t1 ++ t2, o2, np, None)
+        | Normal => (s2, t1 ++ t2 ++ discard_rest g l', Normal, np, [])
+        | _ => (s2, t1 ++ t2, o2, np, [])
         end
-      | _ => (s1, t1, o1, np, Some e)          (* panic while draining: the pill is remembered *)
+      | _ => (s1, t1, o1, np, e :: sk)         (* panic while draining: the pill and the skipped pills are remembered *)
       end
     | User _ =>
       let '(s1, t1, o1) := invoke_msg c s e in
       match o1 with
       | Normal => let '(s2, t2, o2, np, d) := invoke_loop c s1 l' nproc in (s2, t1 ++ t2, o2, np, d)
-      | _ => (s1, t1, o1, nproc, None)
+      | _ => (s1, t1, o1, nproc, [])
       end
     end
   end.
@@ -206,8 +214,9 @@ Fixpoint invoke (fuel : nat) (c : cfg) (s : pst) (msgs : list env) {struct fuel}
   match o1 with
   | Normal => (s1, t1, Normal)
   | Panicking internal =>
-    (* deferred recover: buffer the draining pill and msgs[nproc:], then tryRestart *)
-    let buf := match draining with Some p => [p] | None => [] end ++ skipn nproc msgs in
+    (* deferred recover: buffer the draining pill, the pills its drain passed
+       over, and msgs[nproc:]; then tryRestart *)
+    let buf := draining ++ skipn nproc msgs in
     let '(s2, t2, o2) := try_restart f c (upd_mbuf s1 buf) internal in
     (s2, t1 ++ t2, o2)
   end end
@@ -246,7 +255,12 @@ with try_restart (fuel : nat) (c : cfg) (s : pst) (internal : bool) {struct fuel
     | _ => (s1, t1, o1)
     end
   else if Nat.eqb (restarts s) (maxr c) then
-    let '(s1, t1, o1) := cleanup c s None in (s1, EvMaxRestarts :: t1, o1)
+    let '(s1, t1, o1) := cleanup c s None in
+    match o1 with
+    | Normal => (* what was buffered for the restart is discarded *)
+      (upd_mbuf s1 [], EvMaxRestarts :: t1 ++ flat_map discard (mbuf s1), Normal)
+    | _ => (s1, EvMaxRestarts :: t1, o1)
+    end
   else
     let '(s1, t1, o1) := deliver_stopped c s in
     match o1 with
